@@ -74,7 +74,7 @@ def getN (cfg : GenCfg) (n : Node) (root : Bool) (v : Val) (p : List Seg) (buf :
           | .cont b => getFallThrough cfg n root v false b
           | f => f
         if k.typn == "string" then
-          if k.ptr then nested (zeroVal mv) -- `m[&path[d]]`: a fresh pointer never is a key (not in G0)
+          if k.ptr then getFallThrough cfg n root v false buf   -- `m[&path[d]]`: a fresh pointer never is a key
           else
             match lookupKey ks vs (.str s.text) with
             | some x => nested x
